@@ -653,7 +653,17 @@ fn main() {
     let cases_of = |unit: usize| -> Vec<Case> {
         let files = &sets[unit / per_set];
         let k = unit % per_set;
-        let mk = |max_size, max_sequences, (use_characters, char_grams): (bool, u8)| Case { files: files.clone(), max_size, max_sequences, use_characters, char_grams, threads: THREADS.to_vec(), term: vec![] };
+        // (quick: a configuration that reads no line at all, max_sequences = 0, or keeps no entry, max_size = 0,
+        // with 0 and 2 threads only)
+        let mk = |max_size, max_sequences: Option<usize>, (use_characters, char_grams): (bool, u8)| Case {
+            files: files.clone(),
+            max_size,
+            max_sequences,
+            use_characters,
+            char_grams,
+            threads: if quick && (max_sequences == Some(0) || max_size == Some(0)) { vec![0, 2] } else { THREADS.to_vec() },
+            term: vec![],
+        };
         if k == 0 {
             let mut v = vec![];
 
@@ -768,7 +778,7 @@ fn main() {
         // (the thread count is a u8: line counts around 2^8 in quick too, there with fewer thread counts)
         let lens = tu_verif::enumerate::threshold_lengths(8);
         let quick = run.pick(true, false);
-        run.bounds.insert("many_lines_phase".into(), json!(format!("line counts {lens:?} x (one file, two files cut in the middle) x max_size {{10, none}} x max_sequences {{none, n - 1, n}} x 3 modes x num_threads {{0, 1, 2, 3, 16, 17, 255}}{}", if quick { " (quick, more than 65 lines: one file, {0, 2, 255}, words + chars(3))" } else { "" })));
+        run.bounds.insert("many_lines_phase".into(), json!(format!("line counts {lens:?} x (one file, two files cut in the middle) x max_size {{10, none}} x max_sequences {{none, n - 1, n}} x 3 modes x num_threads {{0, 1, 2, 3, 16, 17, 255}}{}", if quick { " (quick: the thread counts above 3 with the word mode only; more than 65 lines: one file, {0, 2, 255}, words + chars(3))" } else { "" })));
         let base = units + sus.len() + specs.len().div_ceil(64);
         run.bounds.insert("many_lines_first_unit".into(), json!(base));
         for (k, n) in lens.iter().enumerate() {
@@ -776,18 +786,25 @@ fn main() {
             let lines: Vec<String> = (0..*n).map(|i| pat[i % pat.len()].to_string()).collect();
             for (fi, files) in [vec![lines.clone()], vec![lines[..*n / 2].to_vec(), lines[*n / 2..].to_vec()]].into_iter().enumerate() {
                 for (mi, max_size) in [Some(10), None].into_iter().enumerate() {
-                    // (a unit per line count, file layout and max_size: the units are heavy)
-                    if !run.unit((base + 4 * k + 2 * fi + mi) as u64) || (quick && *n > 65 && fi == 1) {
-                        continue;
-                    }
-                    for max_sequences in [None, Some(*n - 1), Some(*n)] {
+                    for (qi, max_sequences) in [None, Some(*n - 1), Some(*n)].into_iter().enumerate() {
+                        // (a unit per line count, file layout, max_size and max_sequences: they are heavy)
+                        if !run.unit((base + 12 * k + 6 * fi + 3 * mi + qi) as u64) || (quick && *n > 65 && fi == 1) {
+                            continue;
+                        }
                         for (use_characters, char_grams) in MODES {
                             let trimmed = quick && *n > 65;
                             if trimmed && use_characters && char_grams == 1 {
                                 continue;
                             }
                             // (also thread counts around a power of two and the largest the parameter type holds)
-                            let threads = if trimmed { vec![0, 2, 255] } else { vec![0, 1, 2, 3, 16, 17, 255] };
+                            // (quick: the large thread counts with the word mode only -- the mode does not
+                            // change how lines are handed to the threads)
+                            let threads = match (trimmed, quick && use_characters) {
+                                (true, false) => vec![0, 2, 255],
+                                (true, true) => vec![0, 2],
+                                (false, true) => vec![0, 1, 2, 3],
+                                (false, false) => vec![0, 1, 2, 3, 16, 17, 255],
+                            };
                             check_case(&mut run, &mut ctx, &Case { files: files.clone(), max_size, max_sequences, use_characters, char_grams, threads, term: vec![] });
                         }
                     }
@@ -806,7 +823,7 @@ fn main() {
             }
         }
         run.bounds.insert("repeats_phase".into(), json!(format!("{} corpora (every sequence of 2..={} lines from {menu:?}) x max_size {{1, 2}} x {{words, chars(1)}} x num_threads {{0, 1, 2}}", corpora.len(), run.pick(3, 4))));
-        let base = units + sus.len() + specs.len().div_ceil(64) + 4 * tu_verif::enumerate::threshold_lengths(8).len() + 200;
+        let base = units + sus.len() + specs.len().div_ceil(64) + 12 * tu_verif::enumerate::threshold_lengths(8).len() + 200;
         for (k, chunk) in corpora.chunks(16).enumerate() {
             if !run.unit((base + k) as u64) {
                 continue;
@@ -824,7 +841,7 @@ fn main() {
     {
         let lines: Vec<String> = strings(&FORMAT_ALPHA, run.pick(3, 4)).into_iter().filter(|l| l.chars().any(|c| c != 'a' && c != ' ')).collect();
         run.bounds.insert("format_phase".into(), json!(format!("{} one-line corpora over {FORMAT_ALPHA:?} with at most {} symbols x 3 modes: creation and save/load round trip", lines.len(), run.pick(3, 4))));
-        let base = units + sus.len() + specs.len().div_ceil(64) + 4 * tu_verif::enumerate::threshold_lengths(8).len();
+        let base = units + sus.len() + specs.len().div_ceil(64) + 12 * tu_verif::enumerate::threshold_lengths(8).len();
         for (k, chunk) in lines.chunks(32).enumerate() {
             if !run.unit((base + k) as u64) {
                 continue;
